@@ -400,6 +400,29 @@ def gen_req(rng, target_versions):
 NAMES = ["a", "b", "c", "x", "y", "dep", "a1"]
 
 
+def req_met_by(rng, w):
+    """a requirement that version w satisfies (used to plant a solution)"""
+    M, m, p, pre = w
+    if pre or rng.chance(1, 6):
+        return ("=", w)
+    forms = ["Mm", "Mmp", "Mmp"]
+    if M >= 1 or m == 0:
+        forms += ["M", "M_p"]
+    form = rng.choice(forms)
+    if M >= 1:
+        m2 = rng.range(0, m)
+        p2 = rng.range(0, p) if m2 == m else rng.range(0, 3)
+    else:
+        m2, p2 = m, rng.range(0, p)
+    if form == "M":
+        return ("^", M, None, None)
+    if form == "M_p":
+        return ("^", M, None, rng.range(0, p) if m == 0 else 0)
+    if form == "Mm":
+        return ("^", M, m2, None)
+    return ("^", M, m2, p2)
+
+
 def gen_universe(rng, npk_max, nver_max, with_lock):
     npk = rng.range(1, npk_max)
     pkgs = ["p%d" % i for i in range(npk)]
@@ -415,6 +438,15 @@ def gen_universe(rng, npk_max, nver_max, with_lock):
             if rng.chance(1, 6) and len(vs) < nver_max + 1:
                 vs.add((v[0], v[1], max(0, v[2] - rng.range(0, 1)), rng.choice(["alpha", "rc1"])))
         vers[p] = sorted(vs)
+    # planted solution (mostly-valid stream): one chosen version per (package, class); the chosen
+    # versions and the root only require what chosen versions provide
+    planted = rng.chance(2, 3)
+    chosen = {}
+    if planted:
+        for p in pkgs:
+            for v in rng.shuffle(vers[p]):
+                chosen.setdefault((p, klass(v)), v)
+    chosen_list = sorted(chosen.items())
     index = []
     for p in pkgs:
         for v in vers[p]:
@@ -422,14 +454,22 @@ def gen_universe(rng, npk_max, nver_max, with_lock):
             names = rng.shuffle(NAMES)[:nd]
             ds = []
             for n in names:
-                q = rng.choice(pkgs)
-                ds.append((n, q, gen_req(rng, vers[q])))
+                if planted and chosen.get((p, klass(v))) == v and not rng.chance(1, 12):
+                    (q, _), w = rng.choice(chosen_list)
+                    ds.append((n, q, req_met_by(rng, w)))
+                else:
+                    q = rng.choice(pkgs)
+                    ds.append((n, q, gen_req(rng, vers[q])))
             index.append((p, v, ds))
     nroot = rng.weighted([(0, 1), (1, 8), (2, 8), (3, 4)])
     root = []
     for n in rng.shuffle(NAMES)[:nroot]:
-        q = rng.choice(pkgs + (["p9"] if rng.chance(1, 25) else []))
-        root.append((n, q, gen_req(rng, vers.get(q, []))))
+        if planted and not rng.chance(1, 12):
+            (q, _), w = rng.choice(chosen_list)
+            root.append((n, q, req_met_by(rng, w)))
+        else:
+            q = rng.choice(pkgs + (["p9"] if rng.chance(1, 25) else []))
+            root.append((n, q, gen_req(rng, vers.get(q, []))))
     index = rng.shuffle(index)
     locked = None
     if with_lock:
@@ -526,8 +566,32 @@ def model_block(mline, mode):
     return fields_of(body[:end])
 
 
+def run_robust(exe, cases, depth=0):
+    """run_sharded, but a universe that kills the process (abort / stack overflow, which
+    catch_unwind cannot stop) is reported as `res=ABORT` and the rest of its shard is re-run."""
+    shards = core.NPROC
+    n = len(cases)
+    if n == 0:
+        return 0, [], ""
+    rc, out, err = core.run_sharded(exe, [], cases, shards=shards)
+    if rc == 0 or depth > 40:
+        return rc, out, err
+    size = (n + shards - 1) // shards
+    res = list(out)
+    for lo in range(0, n, size):
+        hi = min(n, lo + size)
+        miss = [i for i in range(lo, hi) if res[i] == "<missing>"]
+        if not miss:
+            continue
+        first = miss[0]
+        res[first] = "res=ABORT"
+        rc2, rest, err2 = run_robust(exe, cases[first + 1:hi], depth + 1)
+        res[first + 1:hi] = rest
+    return 0, res, err
+
+
 def run_cases(ck, cases, exe_impl, exe_model, mode=None):
-    rc1, impl_out, e1 = core.run_sharded(exe_impl, [], cases)
+    rc1, impl_out, e1 = run_robust(exe_impl, cases)
     if rc1:
         ck.obligation("correspondence-run:impl", "internal", False, "rc=%s %s" % (rc1, e1))
     minputs = []
@@ -570,6 +634,9 @@ def compare(ck, cases, impl_out, model_out, mode):
         ck.hist("outcome", res)
         ck.hist("packages", len({p for p, _, _ in index}))
         ck.hist("index_entries", min(len(index), 12))
+        if res == "ok":
+            ck.hist("edges_bound", min(len(list(filter(None, f.get("E", "").split(",")))), 12))
+            ck.hist("versions_resolved", min(sum(len(x.split("+")) for x in filter(None, f.get("A", "").split(","))), 8))
         if locked is not None:
             ck.hist("with_lock", "yes")
         for _, _, ds in index + [("root", None, root)]:
@@ -609,7 +676,9 @@ def compare(ck, cases, impl_out, model_out, mode):
         disagree = []
         if res == "ok" and not m.startswith("MODEL-ERROR"):
             if mf.get("ipsame") != "1":
-                disagree.append("index_packages is not sort+dedup of the answer")
+                # the order/duplication of the stored lists is not part of the property (the model's
+                # lookups below run on the lists exactly as the implementation stored them)
+                ck.count("index_packages_not_sorted_dedup")
             b = model_block(m, mode)
             for k in ("E", "SD", "K", "M"):
                 if f.get(k) != b.get(k):
@@ -618,7 +687,8 @@ def compare(ck, cases, impl_out, model_out, mode):
                 disagree.append("the lock file's entries are not a valid solution (hypothesis of relock_stable)")
             if b.get("LV") == "1":
                 ck.count("lockfiles_validated_as_complete_solutions")
-            if mf.get("lockok") == "1" and mf.get("lockreach") != f.get("A"):
+            if mf.get("lockok") == "1" and parse_assignment(mf.get("lockreach", "")) != {
+                    p: sorted(set(vs)) for p, vs in parse_assignment(f.get("A", "")).items()}:
                 disagree.append("a complete valid lock was not kept: model reach %s, impl %s" % (mf.get("lockreach"), f.get("A")))
             # the model's known class and the oracle's naming of it must coincide
             mk = set(filter(None, mf.get("known", "").split(",")))
